@@ -1,4 +1,6 @@
 import Mp4ff.Model.Nalu
+import Mp4ff.Lemmas.ScanEq
+import Mp4ff.Lemmas.C14Conv
 /-!
 # C14 — NAL unit framing conversions preserve the NAL unit sequence
 Property theorems.  (Scanner equivalence, conversion and walker theorems are added from
@@ -31,6 +33,74 @@ theorem probe_sound (s : Bytes) (j : Nat) (hj : j ≥ 1) (sc : SC) (h : probe s 
         exact ⟨⟨h0, h2.1⟩, h2.2⟩
       · simp at h
   · simp at h
+
+/-- **the word trick never misses a zero byte** (the only direction the scanner relies on) -/
+theorem hasZeroByte_complete (s : Bytes) (hs : IsBytes s) (i k : Nat) (hk : k < 8)
+    (hz : byteAt s (i + k) = 0) : hasZeroByte (word s i) = true :=
+  hasZeroByte_word s hs i k hk hz
+
+/-- **the word-at-a-time start-code scanner finds the same start codes as a byte-by-byte scan**,
+    for every byte string: all lengths, hence every alignment of a start code relative to the machine
+    words, the word/tail boundary included. -/
+theorem scanWord_eq_scanByte (s : Bytes) (hs : IsBytes s) : scanWord s = scanByte s :=
+  scanWord_eq s hs
+
+/-- **Annex B → NAL units**: for every well-formed stream (3- and 4-byte start codes in any mix, units
+    emulation-free and not ending in 00) the byte scanner finds exactly the start codes laid down … -/
+theorem scanByte_annexB (units : List (Nat × Bytes)) (h : UnitsOK units) :
+    scanByte (annexB units) = expectedSCs 0 units := Nalu.scanByte_annexB units h
+
+/-- … hence so does the word-at-a-time scanner used by the conversion -/
+theorem scanWord_annexB (units : List (Nat × Bytes)) (h : UnitsOK units) (hb : IsBytes (annexB units)) :
+    scanWord (annexB units) = expectedSCs 0 units := by
+  rw [scanWord_eq_scanByte _ hb]; exact Nalu.scanByte_annexB units h
+
+/-- … and `ExtractNalusFromByteStream` yields exactly the NAL units between the start codes -/
+theorem extractNalus_annexB (units : List (Nat × Bytes)) (h : UnitsOK units) :
+    extractNalus (annexB units) = units.map (·.2) := Nalu.extractNalus_annexB units h
+
+/-- **length-prefixed → units** (`GetNalusFromSample`) -/
+theorem nalusFromSample_lenPrefixed (ns : List Bytes) (h : NalusOK ns) (hne : ns ≠ []) :
+    nalusFromSample (lenPrefixed ns) = some ns := Nalu.nalusFromSample_lenPrefixed ns h hne
+
+/-- **length-prefixed → Annex B** (`ConvertSampleToByteStream`): same units behind 4-byte start codes -/
+theorem toByteStream_lenPrefixed (ns : List Bytes) (h : NalusOK ns) :
+    toByteStream ((lenPrefixed ns).length + 1) (lenPrefixed ns) 0 = annexB (ns.map fun n => (4, n)) :=
+  Nalu.toByteStream_lenPrefixed ns h
+
+/-- **walkers agree with the unit sequence**, for AVC and HEVC (`c` = codec): list types … -/
+theorem naluTypes_lenPrefixed (c : Codec) (ns : List Bytes) (h : NalusOK ns) :
+    naluTypes c false (lenPrefixed ns) = ns.map (fun n => c.typeOf (n.headD 0)) :=
+  Nalu.naluTypes_lenPrefixed c ns h
+
+/-- … list types up to the first video unit … -/
+theorem naluTypesUpTo_lenPrefixed (c : Codec) (ns : List Bytes) (h : NalusOK ns) :
+    naluTypes c true (lenPrefixed ns) = typesUpTo c ns := Nalu.naluTypesUpTo_lenPrefixed c ns h
+
+/-- … contains type (hence avc `IsIDRSample`) … -/
+theorem containsType_lenPrefixed (c : Codec) (ns : List Bytes) (h : NalusOK ns) (t : Nat) :
+    containsType c (lenPrefixed ns) t = (ns.map (fun n => c.typeOf (n.headD 0))).contains t :=
+  Nalu.containsType_lenPrefixed c ns h t
+
+/-- … parameter sets before the first video unit … -/
+theorem paramSets_lenPrefixed (c : Codec) (isPS : Nat → Bool) (ns : List Bytes) (h : NalusOK ns) :
+    paramSets c isPS (lenPrefixed ns) = psSpec c isPS ns := Nalu.paramSets_lenPrefixed c isPS ns h
+
+/-- … `HasParameterSets`, hevc `IsRAPSample`/`IsIDRSample` are functions of those type lists -/
+theorem hasParamSets_lenPrefixed (c : Codec) (need : List Nat) (ns : List Bytes) (h : NalusOK ns) :
+    hasParamSets c need (lenPrefixed ns) = need.all fun t => (typesUpTo c ns).contains t := by
+  unfold hasParamSets; rw [Nalu.naluTypesUpTo_lenPrefixed c ns h]
+
+theorem anyTypeIn_lenPrefixed (c : Codec) (lo hi : Nat) (ns : List Bytes) (h : NalusOK ns) :
+    anyTypeIn c lo hi (lenPrefixed ns) =
+      (ns.map (fun n => c.typeOf (n.headD 0))).any fun t => lo ≤ t ∧ t ≤ hi := by
+  unfold anyTypeIn; rw [Nalu.naluTypes_lenPrefixed c ns h]
+
+/-! non-vacuity -/
+example : UnitsOK [(4, [0x67, 1, 2]), (3, [0x68, 0, 0x80]), (4, [0x65])] := by
+  intro u hu; simp at hu
+  rcases hu with h | h | h <;> subst h <;>
+    simp [WFNalu, IsBytes, EmulationFree]
 
 example : probe [0x65, 0, 0, 1, 0x41] 1 = some ⟨3, 4⟩ := by decide
 
